@@ -21,13 +21,22 @@ import (
 var vc7Cols = []uint64{0, 1, 65536, vgaSW - 1, vgaSW, vgaSW + 1, 3*vgaSW + 5}
 var vc7Rows = []uint64{0, 1, 2, 99, 100, 101}
 
+const vc7BulkN = 2600
+
+func vc7Head(a []uint64) []uint64 {
+	if len(a) > 12 {
+		return a[:12]
+	}
+	return a
+}
+
 func TestVerifC07_API(t *testing.T) {
 	defer vkit.Flush()
 	env := vgaStart()
 	defer env.Close()
 	rapid.Check(t, func(t *rapid.T) {
 		cache := rapid.SampledFrom([]string{pilosa.CacheTypeRanked, pilosa.CacheTypeLRU, pilosa.CacheTypeNone}).Draw(t, "cache")
-		bounds := rapid.SampledFrom([][2]int64{{-2000, 2000}, {0, 1000}, {-10, 10}, {100, 200}}).Draw(t, "bounds")
+		bounds := rapid.SampledFrom([][2]int64{{-2000, 2000}, {-2000, 2000}, {0, 1000}, {-10, 10}, {100, 200}, {-300, -100}}).Draw(t, "bounds")
 		min, max := bounds[0], bounds[1]
 		index, drop := env.newIndex(t, "c07x", pilosa.IndexOptions{})
 		defer drop()
@@ -111,7 +120,7 @@ func TestVerifC07_API(t *testing.T) {
 			}
 			sort.Slice(keys, func(i, j int) bool { return keys[i] < keys[j] })
 			if vc, ok := c.q1("Sum(field=v)").(pilosa.ValCount); !ok || vc.Val != wsum || vc.Count != int64(len(vals)) {
-				c.fail("Sum(field=v) = %+v, want (%d,%d); values %v", vc, wsum, len(vals), vals)
+				c.fail("Sum(field=v) = %+v, want (%d,%d)", vc, wsum, len(vals))
 			}
 			if len(keys) > 0 {
 				p := vals[rapid.SampledFrom(keys).Draw(t, "verify.pred")]
@@ -122,12 +131,30 @@ func TestVerifC07_API(t *testing.T) {
 					}
 				}
 				if got := c.qCols(fmt.Sprintf("Row(v == %d)", p)); !vgaEq(got, want) {
-					c.fail("Row(v == %d) = %v, want %v; values %v", p, got, want, vals)
+					c.fail("Row(v == %d): %d columns, want %d: got %v want %v", p, len(got), len(want), vc7Head(got), vc7Head(want))
+				}
+				var lt, gt []uint64
+				for _, col := range keys {
+					if vals[col] < p {
+						lt = append(lt, col)
+					}
+					if vals[col] > p {
+						gt = append(gt, col)
+					}
+				}
+				if got := c.qCols(fmt.Sprintf("Row(v < %d)", p)); !vgaEq(got, lt) {
+					c.fail("Row(v < %d): %d columns, want %d: got %v want %v", p, len(got), len(lt), vc7Head(got), vc7Head(lt))
+				}
+				if got := c.qCols(fmt.Sprintf("Row(v > %d)", p)); !vgaEq(got, gt) {
+					c.fail("Row(v > %d): %d columns, want %d: got %v want %v", p, len(got), len(gt), vc7Head(got), vc7Head(gt))
+				}
+				if got := c.qCols("Row(v != null)"); !vgaEq(got, keys) {
+					c.fail("Row(v != null): %d columns, want %d: got %v want %v", len(got), len(keys), vc7Head(got), vc7Head(keys))
 				}
 			}
 		}
 		paths := map[string]bool{}
-		shrinking := false
+		shrinking, bulkPath, bulkClearNeg := false, false, false
 		lastPath := map[uint64]string{} // row of f / 1<<40 for v -> last write path; a change of path after a verify is the non-trivial event
 		verified, cross := false, false
 		wrote := func(path string, keys ...uint64) {
@@ -143,7 +170,7 @@ func TestVerifC07_API(t *testing.T) {
 		n := rapid.IntRange(1, vkit.Scale(14, 24)).Draw(t, "steps")
 		for i := 0; i < n; i++ {
 			l := fmt.Sprintf("s%d", i)
-			op := rapid.SampledFrom([]string{"Set", "Set", "Clear", "Import", "ImportClear", "Roaring", "RoaringClear", "ClearRow", "SetValue", "SetValue", "ImportValue", "ImportValue", "ImportValueClear"}).Draw(t, l+".op")
+			op := rapid.SampledFrom([]string{"Set", "Set", "Clear", "Import", "ImportClear", "Roaring", "RoaringClear", "ClearRow", "SetValue", "SetValue", "ImportValue", "ImportValue", "ImportValueClear", "ImportValueBulk", "ImportValueBulkClear"}).Draw(t, l+".op")
 			switch op {
 			case "Set", "Clear":
 				r, col := rapid.SampledFrom(vc7Rows).Draw(t, l+".row"), rapid.SampledFrom(vc7Cols).Draw(t, l+".col")
@@ -203,6 +230,59 @@ func TestVerifC07_API(t *testing.T) {
 					c.fail("%s returned %v, want %v", q, got, want)
 				}
 				wrote(op, vKey)
+			case "ImportValueBulk", "ImportValueBulkClear":
+				// enough values in one request for fragment.importValue's bulk (snapshotting) path: MaxOpN cannot be
+				// lowered through the API, so the request has to carry >= 10000/(bitDepth+1) values
+				clear := op == "ImportValueBulkClear"
+				v := genVal(l + ".val")
+				if _, had := vals[2000]; clear && !had {
+					// nothing to clear yet: store the values first (and read them back), then clear them
+					for j := 0; j < vc7BulkN; j++ {
+						vals[2000+uint64(j)] = v
+					}
+					cs, vs := make([]uint64, vc7BulkN), make([]int64, vc7BulkN)
+					for j := range cs {
+						cs[j], vs[j] = 2000+uint64(j), v
+					}
+					c.hist = append(c.hist, fmt.Sprintf("ImportValueBulk(v, shard=0, cols=2000..%d, val=%d)", 2000+vc7BulkN-1, v))
+					if err := env.cmd.API.ImportValue(context.Background(), &pilosa.ImportValueRequest{Index: index, Field: "v", Shard: 0, ColumnIDs: cs, Values: vs}); err != nil {
+						c.fail("ImportValue: %v", err)
+					}
+					verify()
+					verified = true
+				}
+				cs := make([]uint64, vc7BulkN)
+				vs := make([]int64, vc7BulkN)
+				negStored := false
+				for j := range cs {
+					cs[j] = 2000 + uint64(j)
+					vs[j] = v
+					if old, had := vals[cs[j]]; had && clear {
+						vs[j] = old  // a client clears the value it knows
+						if old < 0 { // (the base of a field created through the API is 0)
+							negStored = true
+						}
+					}
+				}
+				c.hist = append(c.hist, fmt.Sprintf("%s(v, shard=0, cols=2000..%d, val=%d or stored)", op, 2000+vc7BulkN-1, v))
+				req := &pilosa.ImportValueRequest{Index: index, Field: "v", Shard: 0, ColumnIDs: cs, Values: vs}
+				if err := env.cmd.API.ImportValue(context.Background(), req, pilosa.OptImportOptionsClear(clear)); err != nil {
+					c.fail("ImportValue: %v", err)
+				}
+				for j, col := range cs {
+					if clear {
+						delete(vals, col)
+					} else {
+						vals[col] = vs[j]
+					}
+				}
+				if fld, err := env.cmd.API.Field(context.Background(), index, "v"); err == nil && vc7BulkN*(int(fld.Options().BitDepth)+1) >= 10000 {
+					bulkPath = true
+					if clear && negStored {
+						bulkClearNeg = true
+					}
+				}
+				wrote(op, vKey)
 			case "ImportValue", "ImportValueClear":
 				k := rapid.IntRange(1, 4).Draw(t, l+".n")
 				shard := rapid.SampledFrom([]uint64{0, 1, 3}).Draw(t, l+".shard")
@@ -253,7 +333,7 @@ func TestVerifC07_API(t *testing.T) {
 		verify()
 		kc := vkit.NewCase().Key("c07api", c.desc, c.hist)
 		defer kc.Done()
-		kc.Class("cache:"+cache).ClassIf(shrinking, "importOverwritesWithMuchSmallerValue").ClassIf(cross, "crossPathAfterRead")
+		kc.Class("cache:"+cache).ClassIf(shrinking, "importOverwritesWithMuchSmallerValue").ClassIf(bulkPath, "ImportValue reaches the bulk path").ClassIf(bulkClearNeg, "bulk clear-import of negative stored values").ClassIf(cross, "crossPathAfterRead")
 		for p := range paths {
 			kc.Class("path:" + p)
 		}
